@@ -115,23 +115,37 @@ fn dump_machine(m: &types::StateMachine, out: &mut Vec<String>) {
 }
 
 /// Canonical order for the superstate marker items (their real order is that of
-/// `HashMap::keys()`): the first `nleaves` marker items are leaves, the next `nsup` are
-/// superstates; each marker item is six token trees `# [..] pub struct X ;`.
-fn canonical_tokens(ts: TokenStream, nleaves: usize, nsup: usize) -> Vec<String> {
+/// `HashMap::keys()`): every item of the shape `# [..] pub struct X ;` (six token trees) whose `X` is a
+/// superstate is found wherever it stands, and those items are put back, sorted by name, into the
+/// positions they occupied.
+fn canonical_tokens(ts: TokenStream, sups: &std::collections::HashSet<String>) -> Vec<String> {
     let trees: Vec<TokenTree> = ts.into_iter().collect();
-    let a = nleaves * 6;
-    let b = (nleaves + nsup) * 6;
-    let mut out = Vec::new();
-    if b <= trees.len() {
-        let mut chunks: Vec<Vec<TokenTree>> = trees[a..b].chunks(6).map(|c| c.to_vec()).collect();
-        chunks.sort_by_key(|c| c[4].to_string());
-        let mut re: Vec<TokenTree> = trees[..a].to_vec();
-        for c in chunks { re.extend(c); }
-        re.extend(trees[b..].iter().cloned());
-        flatten(re.into_iter().collect(), &mut out);
-    } else {
-        flatten(trees.into_iter().collect(), &mut out);
+    let is_p = |t: &TokenTree, c: char| matches!(t, TokenTree::Punct(p) if p.as_char() == c);
+    let is_i = |t: &TokenTree, s: &str| matches!(t, TokenTree::Ident(i) if i == s);
+    let mut at: Vec<usize> = Vec::new();
+    let mut i = 0;
+    while i + 6 <= trees.len() {
+        let name = trees[i + 4].to_string();
+        if is_p(&trees[i], '#') && matches!(trees[i + 1], TokenTree::Group(_)) && is_i(&trees[i + 2], "pub")
+            && is_i(&trees[i + 3], "struct") && matches!(trees[i + 4], TokenTree::Ident(_)) && is_p(&trees[i + 5], ';')
+            && sups.contains(&name)
+        {
+            at.push(i);
+            i += 6;
+        } else {
+            i += 1;
+        }
     }
+    let mut chunks: Vec<Vec<TokenTree>> = at.iter().map(|&k| trees[k..k + 6].to_vec()).collect();
+    chunks.sort_by_key(|c| c[4].to_string());
+    let mut re = trees.clone();
+    for (k, c) in at.iter().zip(chunks.into_iter()) {
+        for (j, t) in c.into_iter().enumerate() {
+            re[k + j] = t;
+        }
+    }
+    let mut out = Vec::new();
+    flatten(re.into_iter().collect(), &mut out);
     out
 }
 
@@ -152,7 +166,8 @@ fn process(id: &str, text: &str) -> Vec<String> {
                         match m.expand() {
                             Err(e) => out.push(format!("EXPAND ERR {e}")),
                             Ok(ts) => {
-                                let toks = canonical_tokens(ts, m.states.len(), m.hierarchy.lookup.len());
+                                let sups: std::collections::HashSet<String> = m.hierarchy.lookup.keys().map(|k| k.to_string()).collect();
+                                let toks = canonical_tokens(ts, &sups);
                                 out.push(format!("T\t{}", toks.join("\t")));
                             }
                         }
